@@ -38,7 +38,7 @@ try:
         env = dict(os.environ, VERIF_REPO=wt, VERIF_EVIDENCE_DIR=os.path.join(wt, ".ev"))
         r = run(c["quick_cmd"], cwd="/verif", env=env)
         reps = [l for l in r.stdout.splitlines() if l.startswith("REPORT")]
-        if r.returncode != 0:
+        if r.returncode == 1:
             fired[p] = {"rc": r.returncode, "reports": [x[:300] for x in reps[:3]] or [l for l in r.stdout.splitlines() if "ANALYSIS-ERROR" in l][:2]}
     res["checks_firing"] = fired
     res["valid"] = bool(res["patch_applies"] and res["compiles"] and res["tests_passed"] >= 214 and not res["tests_failed"] and res["demo_without_change_rc"] == 0 and res["demo_with_change_rc"] != 0)
